@@ -2,7 +2,8 @@
 Search (on the implementation, oracle = direct transcription of the property): (1) a matrix against a deep copy and against
 order-shuffled copies reports nothing; (2) every single edit of the catalogue, applied to a random object of a deep copy, is
 reported at that object with the right kind for all 16 settings of the ignore options iff its category is not ignored, and
-nothing else is reported; (3) related (0..3 edits + reordering) and unrelated pairs: reports nothing <=> agree_py; (4) swapping
+nothing else is reported - incl. texts that differ only in non-ASCII characters, case or blanks (texts are interned by exact
+string, so distinct texts are distinct integers in the model); (3) related (0..3 edits + reordering) and unrelated pairs: reports nothing <=> agree_py; (4) swapping
 the operands swaps additions and deletions (multisets of node paths); (5) cancompare: flags -> ignore dict.
 Tie: the CompareResult tree (result, type, ref of every node, children in the order Python appended them) vs
 model/Compare.v:compare_db on the same pair (cmd 1301), cli flags (cmd 1302)."""
@@ -325,8 +326,68 @@ GROUPS = ["G%d" % i for i in range(3)]
 ATTRS = ["A%d" % i for i in range(4)]
 DEFS = ["D%d" % i for i in range(4)]
 VTS = ["T%d" % i for i in range(3)]
-TEXTS = ["txt %d" % i for i in range(8)] + ["two\nlines", "two lines"]
-UNITS = ["", "km/h", "V", "degC"]
+TEXTS = ["txt %d" % i for i in range(6)] + ["two\nlines", "two lines", "Open Door", "ge\u00f6ffnet", "\u9589", "20 \u00b5A",
+                                              "caf\u00e9 au lait", "cafe\u0301 au lait", "\u6e29\u5ea6 high", "\u00d6lstand niedrig"]
+UNITS = ["", "km/h", "V", "degC", "\u00b0C", "\u00b5A"]
+NONASCII = ["\u00e9", "\u00f6", "\u00e4", "\u00b5", "\u00df", "\u9589", "\u958b", "\u6e29", "\u20ac", "\u0301"]   # 2- and 3-byte UTF-8
+
+
+def near(rng, text, kind, count=None):
+    """a non-empty text that differs from the non-empty `text` ONLY in the named respect, or None when not possible:
+    nonascii: one non-ASCII character replaced by another / removed / inserted (same ASCII skeleton), or the
+              precomposed e-acute exchanged with e + combining acute;  case: one ASCII letter in the other case;
+    space: a blank added in front, behind or inside, or an inner blank doubled / turned into tab or newline"""
+    if not isinstance(text, str) or not text:
+        return None
+    new, mode = None, None
+    if kind == "nonascii":
+        idx = [i for i, c in enumerate(text) if ord(c) > 127]
+        modes = ["insert"] + (["swap", "swap"] if idx else []) + (["remove", "remove"] if idx and len(text) > 1 else [])
+        if "\u00e9" in text or "e\u0301" in text:
+            modes += ["compose", "compose"]
+        mode = rng.choice(modes)
+        if mode == "insert":
+            i = rng.randrange(len(text) + 1)
+            new = text[:i] + rng.choice(NONASCII) + text[i:]
+        elif mode == "swap":
+            i = rng.choice(idx)
+            new = text[:i] + rng.choice([c for c in NONASCII if c != text[i]]) + text[i + 1:]
+        elif mode == "remove":
+            i = rng.choice(idx)
+            new = text[:i] + text[i + 1:]
+        else:
+            new = text.replace("\u00e9", "e\u0301", 1) if "\u00e9" in text else text.replace("e\u0301", "\u00e9", 1)
+        if mode != "compose":
+            assert new.encode("ascii", "ignore") == text.encode("ascii", "ignore")
+    elif kind == "case":
+        idx = [i for i, c in enumerate(text) if c.isascii() and c.isalpha()]
+        if not idx:
+            return None
+        i = rng.choice(idx)
+        new, mode = text[:i] + text[i].swapcase() + text[i + 1:], "case"
+        assert new.lower() == text.lower()
+    elif kind == "space":
+        inner = [i for i, c in enumerate(text) if c == " "]
+        mode = rng.choice(["lead", "trail", "inner-add"] + (["inner-double", "inner-tab", "inner-newline"] if inner else []))
+        if mode == "lead":
+            new = " " + text
+        elif mode == "trail":
+            new = text + " "
+        elif mode == "inner-add":
+            i = rng.randrange(1, len(text)) if len(text) > 1 else 0
+            new = text[:i] + " " + text[i:]
+        else:
+            i = rng.choice(inner)
+            new = text[:i] + {"inner-double": "  ", "inner-tab": "\t", "inner-newline": "\n"}[mode] + text[i + 1:]
+        assert "".join(new.split()) == "".join(text.split())
+    if new is None or new == text or not new:
+        return None
+    if count is not None:
+        count("near:%s/%s" % (kind, mode))
+    return new
+
+
+NEAR_KINDS = ("nonascii", "case", "space")
 NUMS = ["1", "0.5", "0.1", "2", "-3.25", "1E+2", "100", "0.25", "7", "-1", "1000", "0.001"]
 DEFINITIONS = ["INT 0 100", "INT 0 65535", "STRING", "FLOAT 0 1", 'ENUM "a","b"', "HEX 0 255"]
 
@@ -340,6 +401,7 @@ class Gen:
         self.C = C
         self.rng = rng
         self.blanks = False
+        self.count = None
 
     def num(self, avoid=None):
         r = self.rng
@@ -845,6 +907,166 @@ def catalogue():
     return cat
 
 
+# --------------------------------------------------------------------------- texts that differ in one respect only
+DEFATTRS = (("global_defines", "DefineList"), ("ecu_defines", "ECU Defines"), ("frame_defines", "Frame Defines"),
+            ("signal_defines", "Signal Defines"))
+
+
+def text_targets(db):
+    """(label, cat, chain, anc, get, set) for every text-valued compared property of db"""
+    out = []
+
+    def item(label, cat, chain, anc, d, k):
+        out.append((label, cat, chain, anc, lambda: d[k], lambda v: d.__setitem__(k, v)))
+
+    def attrib(label, cat, chain, anc, o, name):
+        out.append((label, cat, chain, anc, lambda: getattr(o, name), lambda v: setattr(o, name, v)))
+    for f in db.frames:
+        attrib("frame_comment", 0, [f.name], None, f, "comment")
+        for k in f.attributes:
+            item("frame_attribute_value", 1, [f.name], "ATTRIBUTES", f.attributes, k)
+        for sg in f.signals:
+            ch = [f.name, sg.name]
+            attrib("signal_comment", 0, ch, None, sg, "comment")
+            attrib("signal_unit", None, ch, None, sg, "unit")
+            for k in sg.attributes:
+                item("signal_attribute_value", 1, ch, "ATTRIBUTES", sg.attributes, k)
+            for k in sg.values:
+                item("signal_value_description", 3, ch, "Valuetable", sg.values, k)
+    for e in db.ecus:
+        attrib("ecu_comment", 0, [e.name], None, e, "comment")
+        for k in e.attributes:
+            item("ecu_attribute_value", 1, [e.name], "ATTRIBUTES", e.attributes, k)
+    for k in db.attributes:
+        item("global_attribute_value", 1, [], "ATTRIBUTES", db.attributes, k)
+    for attr, lt in DEFATTRS:
+        for d in getattr(db, attr).values():
+            attrib(attr + "_definition_text", 2, [], lt, d, "definition")
+            attrib(attr + "_default_text", 2, [], lt, d, "defaultValue")
+    for t in db.value_tables.values():
+        for k in t:
+            item("global_value_description", 3, [], "Valuetable", t, k)
+    return out
+
+
+TEXT_LABELS = (["frame_comment", "frame_attribute_value", "signal_comment", "signal_unit", "signal_attribute_value",
+                "signal_value_description", "ecu_comment", "ecu_attribute_value", "global_attribute_value",
+                "global_value_description"] + [a + sfx for a, _ in DEFATTRS for sfx in ("_definition_text", "_default_text")])
+
+
+def near_text_edit(label, kind):
+    def e(g, db):
+        cands = [t for t in text_targets(db) if t[0] == label and isinstance(t[4](), str) and t[4]()]
+        g.rng.shuffle(cands)
+        for _, cat, chain, anc, get, put in cands:
+            old = get()
+            new = near(g.rng, old, kind, g.count)
+            if new is not None:
+                put(new)
+                return dict(cat=cat, chain=chain, kinds=CHG, anc=anc, few=True,
+                            what="%s: %r -> %r (differs only in %s)" % (label, old, new, kind))
+        return None
+    e.__name__ = "near_%s_%s" % (label, kind)
+    return e
+
+
+def near_name_edits(kind):
+    """objects / entries whose NAME differs from an existing one only in `kind`: they are other objects"""
+    def pick_near(g, names):
+        names = [n for n in names]
+        g.rng.shuffle(names)
+        for n in names:
+            new = near(g.rng, n, kind, g.count)
+            if new is not None and new not in names:
+                return n, new
+        return None
+
+    def frame_rename(g, db):
+        t = pick_near(g, [f.name for f in db.frames])
+        if t is None:
+            return None
+        db.frame_by_name(t[0]).name = t[1]
+        return dict(cat=None, chain=[t[0]], kinds=CHG, few=True, what="frame renamed %r -> %r" % t)
+
+    def signal_add(g, db):
+        f = pick_frame(g, db)
+        t = pick_near(g, [x.name for x in f.signals])
+        if t is None:
+            return None
+        f.add_signal(g.signal(t[1]))
+        return dict(cat=None, chain=[f.name, t[1]], kinds=ADD, few=True, what="signal %r added next to %r" % (t[1], t[0]))
+
+    def ecu_add(g, db):
+        t = pick_near(g, [x.name for x in db.ecus])
+        if t is None:
+            return None
+        db.ecus.append(g.C.Ecu(t[1]))
+        return dict(cat=None, chain=[t[1]], kinds=ADD, few=True, what="ECU %r added next to %r" % (t[1], t[0]))
+
+    def tx_add(g, db):
+        cands = [f for f in db.frames if f.transmitters]
+        if not cands:
+            return None
+        f = g.rng.choice(cands)
+        t = pick_near(g, f.transmitters)
+        if t is None:
+            return None
+        f.transmitters.append(t[1])
+        return dict(cat=None, chain=[f.name], kinds=ADD, few=True, what="sender %r added next to %r" % (t[1], t[0]))
+
+    def receiver_add(g, db):
+        cands = [(f, x) for f in db.frames for x in f.signals if x.receivers]
+        if not cands:
+            return None
+        f, sg = g.rng.choice(cands)
+        t = pick_near(g, sg.receivers)
+        if t is None or t[1].strip() in [r.strip() for r in sg.receivers]:
+            return None           # receivers are compared without surrounding blanks: such a variant is the same receiver
+        sg.receivers.append(t[1])
+        return dict(cat=None, chain=[f.name, sg.name], kinds=ADD, few=True, what="receiver %r added next to %r" % (t[1], t[0]))
+
+    def attribute_add(g, db):
+        cands = [(f, x) for f in db.frames for x in f.signals if x.attributes]
+        if not cands:
+            return None
+        f, sg = g.rng.choice(cands)
+        t = pick_near(g, list(sg.attributes))
+        if t is None:
+            return None
+        sg.attributes[t[1]] = sg.attributes[t[0]]
+        return dict(cat=1, chain=[f.name, sg.name], kinds=ADD, anc="ATTRIBUTES", few=True,
+                    what="signal attribute %r added next to %r (same value)" % (t[1], t[0]))
+
+    def define_add(g, db):
+        cands = [(a, lt) for a, lt in DEFATTRS if getattr(db, a)]
+        if not cands:
+            return None
+        a, lt = g.rng.choice(cands)
+        t = pick_near(g, list(getattr(db, a)))
+        if t is None:
+            return None
+        getattr(db, a)[t[1]] = copy.deepcopy(getattr(db, a)[t[0]])
+        return dict(cat=2, chain=[], kinds=ADD, anc=lt, few=True, what="%s: define %r added next to %r" % (a, t[1], t[0]))
+
+    def vt_add(g, db):
+        t = pick_near(g, list(db.value_tables))
+        if t is None:
+            return None
+        db.value_tables[t[1]] = dict(db.value_tables[t[0]])
+        return dict(cat=3, chain=[], kinds=ADD, few=True, what="value table %r added next to %r (same content)" % (t[1], t[0]))
+    out = [frame_rename, signal_add, ecu_add, tx_add, receiver_add, attribute_add, define_add, vt_add]
+    for fn in out:
+        fn.__name__ = "nearname_%s_%s" % (fn.__name__, kind)
+    return out
+
+
+def near_catalogue():
+    cat = [near_text_edit(label, kind) for label in TEXT_LABELS for kind in NEAR_KINDS]
+    for kind in NEAR_KINDS:
+        cat += near_name_edits(kind)
+    return cat
+
+
 # edits that keep agreement: a different Decimal with the same double value
 def e_same_double(g, db):
     f, s = pick_signal(g, db)
@@ -862,7 +1084,11 @@ def run(chk):
     chk.rule = ("random matrices built through the canmatrix API (1..4 ECUs, 1..5 frames, 1..5 signals each, attributes, four define lists "
                 "with defaults, value tables, signal groups, comments incl. None/empty, receivers incl. names with surrounding blanks; names "
                 "from small pools so that pairs overlap); per matrix: deep copy, shuffled copy, every applicable edit of the catalogue "
-                "(~75 edits) x all 16 ignore settings, same-double Decimal edits, related pairs (0..3 edits + shuffle), unrelated pairs "
+                "(~75 edits) x all 16 ignore settings, every text-valued compared property (value descriptions, comments, units, attribute "
+                "values, define definitions and defaults) edited between non-empty texts that differ ONLY in non-ASCII characters (2-/3-byte "
+                "UTF-8: one replaced, removed or inserted; precomposed vs combining), only in the case of one letter, or only in blanks "
+                "(leading, trailing, inner, tab, newline), and objects/entries added whose NAME differs from an existing one in that way "
+                "(4 ignore settings each), same-double Decimal edits, related pairs (0..3 edits + shuffle), unrelated pairs "
                 "(coherent and, tagged, with an identifier reused under another name), operands swapped, 8 cancompare flag sets on dumped "
                 "DBC files. non-trivial = the pair differs in at least one compared property or is reordered; distinct by (encoded pair, ignore)")
     ok = chk.build_and_audit()
@@ -884,8 +1110,9 @@ def run(chk):
     rng = chk.rng
     thorough = chk.tier == "thorough"
     gen = Gen(C, rng)
-    CAT = catalogue()
-    n_mat = 40 if not thorough else 360
+    gen.count = chk.count
+    CAT = catalogue() + near_catalogue()
+    n_mat = 34 if not thorough else 300
     tie_budget_per_edit = 2 if not thorough else 4
     lines, expect, info = [], [], []
 
@@ -1019,8 +1246,15 @@ def run(chk):
             applied[edit.__name__] += 1
             if not envelope(b):
                 continue
-            tie_pick = set(rng.sample(range(16), tie_budget_per_edit))
-            for j, bits in enumerate(ALL_IGN):
+            if e.get("few"):
+                # near-text edits: nothing ignored, only the edit's category ignored, everything else ignored, one random setting
+                c = e["cat"]
+                settings = [(0, 0, 0, 0), tuple(int(i == c) for i in range(4)), tuple(int(i != c) for i in range(4)), rng.choice(ALL_IGN)]
+                tie_pick = {rng.randrange(0, 4)}
+            else:
+                settings = ALL_IGN
+                tie_pick = set(rng.sample(range(16), tie_budget_per_edit))
+            for j, bits in enumerate(settings):
                 res, case, enc, _ = compare(a, b, bits)
                 ignored = e["cat"] is not None and bits[e["cat"]]
                 chk.case((edit.__name__, str(case)), not ignored)
@@ -1100,7 +1334,7 @@ def run(chk):
     never = [e.__name__ for e in CAT if not applied[e.__name__]]
     if never:
         chk.notes.append("edits never applicable in this run: " + ", ".join(never))
-        if not thorough and len(never) > 3 or thorough and never:
+        if not thorough and len(never) > 6 or thorough and never:
             chk.obligation_failures.append("edit catalogue not exercised: " + ", ".join(never))
 
     # ---- (5) cancompare: flags -> ignore ----
